@@ -51,6 +51,8 @@ def injected_histories(rng, name, length):
     bads.append({"frame": True, "rows": rows or 5, "width": w + 1, "names": ",".join(D.NAMES[w]) + ",z"})  # wider frame
     bads.append({"frame": True, "rows": rows or 5, "width": w, "names": ",".join("q%d" % k for k in range(w))})  # renamed columns
     bads.append({"frame": True, "rows": 2 if kind == "stream" else 1, "width": w, "names": names})        # frame, wrong rows
+    bads.append({"frame": False, "rows": 0, "width": w, "names": "-"})                                      # no rows at all, right width
+    bads.append({"frame": True, "rows": 0, "width": w, "names": names})                                     # an empty frame with the right columns
     out = []
     start = 1 if needs_ref else 0
     for pos in range(start, len(base) + 1):
